@@ -10,7 +10,7 @@ STATEMENT = ("dt_bump(t, 'nb') from a weekday is the n-th weekday after/before t
              "weekday, monotone in t, same-sign bumps compose; d/w/h/n/s/int/timedelta add exactly; m/q/y at midnight keep the day of month or "
              "roll the excess into the following month; compound tenors apply left to right; +x then -x returns to t (fixed units, b from a "
              "weekday, m/q/y when day <= 28)")
-LEAN_FILES = ['Basic', 'Greg', 'GenTypes', 'Bump', 'BumpDriver', 'PygGen', 'Sweep', 'GregLemmas', 'GregPeriod', 'BumpLemmas', 'MonthLemmas', 'TokenLemmas', 'C09']
+LEAN_FILES = ['Basic', 'Greg', 'GenTypes', 'Bump', 'BumpDriver', 'PygGen', 'Sweep', 'GregLemmas', 'GregPeriod', 'BumpLemmas', 'MonthLemmas', 'TokenLemmas', 'BumpStrLemmas', 'C09']
 GENERATED = ['PygGen.Ym', 'PygGen.BDay', 'PygGen.Tables']
 RULE = ('distinct protocol lines (start instant, bump arguments) on which dt_bump returned a datetime different from the start instant, '
         'or a translator-grid line on which the python kernel returned a value')
@@ -20,8 +20,7 @@ TRUSTED = ['harness/pv/translate.py (python ast -> Lean, validated each run on t
 ASSUMPTIONS = ['CPython datetime: toordinal/fromordinal/weekday/field access/timedelta arithmetic behave as PygModel/Greg.lean (sampled on every line)',
                're: the period pattern matches sign, ASCII digits and one unit letter; str.lower on ASCII',
                'a leftover suffix after the last period token is not a time-zone name (generators keep away from tz names)',
-               'time zones, relativedelta and timeseries arguments are not modelled',
-               'OverflowError raised by an intermediate sum inside the business-day block (within a week of 0001-01-01 / 9999-12-31) is not modelled']
+               'time zones, relativedelta and timeseries arguments are not modelled']
 
 D = datetime.datetime
 TD = datetime.timedelta
@@ -153,13 +152,30 @@ def generate(rng, tier):
     for name in ['spot', 'on', 'o/n', 'tn', 't/n', 'sn', 's/n']:
         for k in range(7):
             yield dict(tag='named', lines=[line('bump', D(2022, 10, 17) + TD(k), name)])
+    # --- dt(bump): relative to today's midnight (the clock `_dates.today` is pinned to the instant in the line, see run_line)
+    for _ in range(600 if quick else 8000):
+        today = rand_day(rng)
+        r = rng.random()
+        if r < 0.55:
+            s = tok(rand_n(rng), rng.choice(UNITS), rng)
+        elif r < 0.85:
+            s = ''.join(tok(rand_n(rng), rng.choice(UNITS), rng) for _ in range(rng.choice([2, 3])))
+        else:
+            s = rng.choice(['spot', 'o/n', 'tn', 'SN', '1x', 'b', '-b', 'jan', ''])      # not a period: dt() goes to the date parser (C04)
+        yield dict(tag='dt-today', lines=[line('dtrel', today, s)])
     # --- text the tokenizer must reject or treat specially
     for s in ['', '1x', '5', 'b', '-b', '1d2', '1d 2d', '--1d', '1.5d', 'd1', '1dd', '3b-', '+-1d', '1e', '2 b']:
         yield dict(tag='malformed', lines=[line('bump', D(2020, 2, 28), s)])
     # --- range ends
     for t, s in [(D(9999, 12, 1), '1m'), (D(9999, 12, 31), '1d'), (D(1, 1, 1), '-1d'), (D(1, 1, 5), '-1m'), (D(1, 3, 1), '-1y'),
-                 (D(9999, 1, 1), '1y'), (D(9000, 1, 1), '60y'), (D(1, 1, 2), '-3b'), (D(9999, 12, 31, 23), '1h')]:
+                 (D(9999, 1, 1), '1y'), (D(9000, 1, 1), '60y'), (D(1, 1, 2), '-3b'), (D(1, 1, 3), '-1b'), (D(9999, 12, 31, 23), '1h')]:
         yield dict(tag='range-end', lines=[line('bump', t, s)])
+    # the business-day block constructs up to three datetimes; each can raise OverflowError although the final date exists
+    # (0001-01-03 '-1b': t - 7 days).  The model walks the generated path Gen.bOffPath; outside the claimed years, must still agree.
+    ends = [D(1, 1, 1) + TD(k) for k in range(12)] + [D(9999, 12, 31) - TD(k) for k in range(12)]
+    for t in ends:
+        for n in (list(range(-12, 13)) if quick else list(range(-25, 26))):
+            yield dict(tag='range-end-b', lines=[line('bump', t + (TD(hours=23, minutes=59) if n % 3 == 0 else TD(0)), '%db' % n)])
     if not quick:
         # every start day of the 1900-2300 cycle, a few (unit, n) each
         t = TMIN
@@ -190,6 +206,22 @@ def run_line(state, sx):
         if not isinstance(res, datetime.datetime) or res.tzinfo is not None:
             return 'ok S:' + hexs(repr(res))
         return 'ok ' + enc(res)
+    if op == 'dtrel':
+        t = proto.dec_cell(args[0])
+        s = proto.dec_cell(args[1])
+        if not _dates.is_period(s):
+            return 'ok N'                       # dt(<other text>) is the date parser's business (C04), not a bump
+        saved = _dates.today
+        _dates.today = lambda date=None: (t if date is None else saved(date))      # pin the clock: dt(0) = today() + 0 days
+        try:
+            if pyg_base.dt(0) != t:
+                raise AssertionError('dt(0) does not read _dates.today')
+            res = pyg_base.dt(s)
+        finally:
+            _dates.today = saved
+        if not isinstance(res, datetime.datetime) or res.tzinfo is not None:
+            return 'ok S:' + hexs(repr(res))
+        return 'ok ' + enc(res)
     if op == 'ym':
         y, m = _dates.ym(int(args[0][2:]), int(args[1][2:]))
         return 'ok (T I:%d I:%d)' % (y, m)
@@ -208,7 +240,7 @@ def run_line(state, sx):
 
 def in_claim(case):
     tag = case.get('tag', '').replace('corpus:', '')
-    return not (tag in ('malformed', 'range-end', 'monthly-intraday'))
+    return not (tag in ('malformed', 'range-end', 'range-end-b', 'monthly-intraday'))
 
 
 def compare(case, i, line, ir, mr):
@@ -224,8 +256,8 @@ def nontrivial(line, reply):
     if not reply.startswith('ok'):
         return False
     sx = proto.parse(line)
-    if sx[1] in ('bump', 'dt'):
-        return reply != 'ok ' + sx[2]
+    if sx[1] in ('bump', 'dt', 'dtrel'):
+        return reply != 'ok ' + sx[2] and reply != 'ok N'
     return True
 
 
@@ -245,12 +277,55 @@ def weekdays():
 
 
 def ref_b(t, n):
-    """the property's reading of 'nb': from a weekend roll forward to Monday (keeping the time), then the n-th weekday"""
+    """the property's reading of 'nb', counted DAY BY DAY with datetime.weekday(): from a Saturday / Sunday first step forward
+    to Monday, then walk |n| weekdays forward (n > 0) or backward (n < 0), one calendar day at a time; the time of day is kept.
+    (For n < 0 from a weekend day this is also the |n|-th weekday before t itself - no weekday lies between t and that Monday -
+    see ref_b_plain and the theorem b_weekend_bwd.)"""
+    d = t
+    while d.weekday() >= 5:
+        d = d + TD(1)
+    step = TD(1) if n > 0 else TD(-1)
+    k = abs(n)
+    while k:
+        d = d + step
+        if d.weekday() < 5:
+            k -= 1
+    return d
+
+
+def ref_b_plain(t, n):
+    """'the n-th weekday after / before t' read with NO roll: walk from t itself.  Agrees with dt_bump from a weekday (all n) and
+    from a weekend day for n < 0; from a weekend day and n >= 0 the property's roll makes dt_bump one weekday later (n+1-th)."""
+    d, k, step = t, abs(n), (TD(1) if n > 0 else TD(-1))
+    while k:
+        d = d + step
+        if d.weekday() < 5:
+            k -= 1
+    return d
+
+
+def ref_b_table(t, n):
+    """the same through a table of weekday ordinals (fast; used for the exhaustive sweep next to a day-by-day walk)"""
     W = weekdays()
     o = t.toordinal()
     i = bisect.bisect_left(W, o)          # first weekday >= o  (o itself on a weekday, next Monday on a weekend)
-    o2 = W[i + n]
-    return t + TD(o2 - o)
+    return t + TD(W[i + n] - o)
+
+
+def walk_refs(t, nmax):
+    """{n: n-th weekday from t (after the roll)} for all |n| <= nmax by ONE day-by-day walk in each direction"""
+    d = t
+    while d.weekday() >= 5:
+        d = d + TD(1)
+    out = {0: d}
+    for step, sign in ((TD(1), 1), (TD(-1), -1)):
+        x, k = d, 0
+        while k < nmax:
+            x = x + step
+            if x.weekday() < 5:
+                k += 1
+                out[sign * k] = x
+    return out
 
 
 def ref_month(t, months):
@@ -287,25 +362,43 @@ def laws(rng, tier, ctx):
         ns = list(range(-60, 61))
     for t in starts:
         tt = t + rand_tod(rng) if rng.random() < 0.3 else t
-        prev = None
+        refs = walk_refs(tt, 60)            # one day-by-day walk per direction gives every n
         for n in ns:
             count += 1
             r = call(tt, '%db' % n)
-            want = ref_b(tt, n)
+            want = refs[n]
+            if quick and want != ref_b(tt, n):
+                raise AssertionError('reference walks disagree')
             if r != want:
-                yield bad('law-b-nth', [line('bump', tt, '%db' % n)], "dt_bump(t,'%db') = %s, the %d-th weekday is %s" % (n, r, n, want))
+                yield bad('law-b-nth', [line('bump', tt, '%db' % n)], "dt_bump(t,'%db') = %s, the %d-th weekday (counted day by day) is %s" % (n, r, n, want))
                 break
+            # the plain reading "n-th weekday before/after t itself" (no roll): equal from a weekday and for n < 0 from a weekend
+            if n != 0 and (tt.weekday() < 5 or n < 0):
+                count += 1
+                if r != ref_b_plain(tt, n):
+                    yield bad('law-b-nth-plain', [line('bump', tt, '%db' % n)], "dt_bump(t,'%db') = %s, the %d-th weekday from t itself is %s" % (n, r, n, ref_b_plain(tt, n)))
+                    break
     # ---- monotone in t (day level and intraday), composition, inverse
     m = 8000 if quick else 60000
     for _ in range(m):
         n = rand_n(rng)
         t1 = rand_day(rng) + rand_tod(rng)
         t2 = t1 + TD(days=rng.choice([0, 0, 1, 1, 2, 3, 5]), seconds=rng.randrange(86400))
+        if rng.random() < 0.25:                 # aim at the weekend roll: t1 on Sat/Sun, t2 up to the Tuesday after, any times of day
+            sat = rand_day(rng)
+            sat = sat + TD((5 - sat.weekday()) % 7)
+            t1 = sat + TD(rng.choice([0, 1])) + rand_tod(rng)
+            t2 = sat + TD(rng.choice([0, 1, 2, 3])) + rand_tod(rng)
+            if t2 < t1:
+                t1, t2 = t2, t1
         s = '%db' % n
         r1, r2 = call(t1, s), call(t2, s)
         count += 1
         if isinstance(r1, str) or isinstance(r2, str) or r1 > r2:
             yield bad('law-b-mono-intraday', [line('bump', t1, s), line('bump', t2, s)], 't1 <= t2 but dt_bump(t1) = %s > dt_bump(t2) = %s' % (r1, r2))
+        elif k3_class(t1, t2):
+            # theorem b_mono_iff: inside this class the images ARE reversed; if the code does not reverse them it is not the code the theorem is about
+            yield bad('law-b-mono-class', [line('bump', t1, s), line('bump', t2, s)], 'inside the K3 class (b_mono_iff) but the images are not reversed: %s <= %s' % (r1, r2))
         d1, d2 = D(t1.year, t1.month, t1.day), D(t2.year, t2.month, t2.day)
         r1, r2 = call(d1, s), call(d2, s)
         count += 1
@@ -359,20 +452,45 @@ def laws(rng, tier, ctx):
         if x != y:
             yield bad('law-compound', [line('bump', t0, s), line('bump', t0, *['%d%s' % p for p in parts])], "'%s' gives %s, part by part %s" % (s, x, y))
     # ---- dt(t, bump) and dt(bump) relative to today agree with dt_bump
-    for _ in range(40):
+    for _ in range(300 if quick else 3000):
         n, u = rand_n(rng), rng.choice(UNITS)
-        s = '%d%s' % (n, u)
+        s = tok(n, u, rng) if rng.random() < 0.7 else tok(n, u, rng) + tok(rand_n(rng), rng.choice(UNITS), rng)
         t0 = pyg_base.dt(0)
         x = pyg_base.dt(s)
+        k = rng.randint(-60, 60)
+        xi = pyg_base.dt(k)
         if pyg_base.dt(0) == t0:        # not across midnight
-            count += 1
+            count += 2
             if x != bump(t0, s):
                 yield bad('law-dt-today', [line('bump', t0, s)], "dt('%s') = %s but dt_bump(today, '%s') = %s" % (s, x, s, bump(t0, s)))
+            if xi != bump(t0, k) or xi != t0 + TD(k):
+                yield bad('law-dt-today', [line('bump', t0, k)], "dt(%d) = %s but today + %d days = %s" % (k, xi, k, t0 + TD(k)))
+        # dt(t, b1, b2, ...) = dt_bump(t, b1, b2, ...) = dt_bump(dt_bump(t, b1), b2) ...
+        t1 = rand_day(rng) + (rand_tod(rng) if rng.random() < 0.5 else TD(0))
+        bs = []
+        for _ in range(rng.choice([1, 2, 3])):
+            r = rng.random()
+            bs.append(rng.randint(-60, 60) if r < 0.25 else TD(seconds=rng.randrange(-86400 * 3, 86400 * 3)) if r < 0.45 else tok(rand_n(rng), rng.choice(FIXED + 'b'), rng))
+        count += 1
+        a, b = pyg_base.dt(t1, *bs), call(t1, *bs)
+        c = t1
+        for x in bs:
+            c = call(c, x) if not isinstance(c, str) else c
+        if not (a == b == c):
+            yield bad('law-dt-args', [line('dt', t1, *bs), line('bump', t1, *bs)], 'dt(t, *bumps) = %s, dt_bump(t, *bumps) = %s, one by one %s' % (a, b, c))
     yield count
 
 
 def _sx_time(a):
     return proto.dec_cell(a)
+
+
+def k3_class(t1, t2):
+    """the exact failure set of monotonicity proved as Pyg.Props.C09.b_mono_iff: t1 <= t2, t1 on a Saturday / Sunday, t2 not
+    later than the Monday following t1, and t2 has the earlier time of day"""
+    tod = lambda t: t - D(t.year, t.month, t.day)
+    monday_after = t1.toordinal() + (7 - t1.weekday())
+    return t1 <= t2 and t1.weekday() >= 5 and t2.toordinal() <= monday_after and tod(t2) < tod(t1)
 
 
 def k3_intraday(f):
@@ -381,9 +499,12 @@ def k3_intraday(f):
     if f.case.get('tag', '').replace('corpus:', '') != 'law-b-mono-intraday' or len(f.case['lines']) != 2:
         return False
     a, b = [proto.parse(l) for l in f.case['lines']]
-    t1, t2 = _sx_time(a[2]), _sx_time(b[2])
-    tod = lambda t: t - D(t.year, t.month, t.day)
-    return t1.weekday() >= 5 and t1 < t2 and tod(t1) > tod(t2) and a[3] == b[3]
+    if a[1] != 'bump' or b[1] != 'bump' or len(a) != 4 or len(b) != 4 or a[3] != b[3]:
+        return False
+    s = proto.dec_cell(a[3])
+    if not (isinstance(s, str) and s.endswith('b') and s[:-1].lstrip('-').isdigit()):
+        return False                      # one '<n>b' bump, the same on both lines
+    return k3_class(_sx_time(a[2]), _sx_time(b[2]))
 
 
 MATCHERS = {'k3_intraday': k3_intraday}
